@@ -58,6 +58,8 @@ def st_source(draw, ctx, n=None, kind=None, keys=None, min_n=0):
         keys = [k + suffix for k in base]
     mode = draw(st.sampled_from([m for m in ctx.modes if m != 'wu'] or ['pickle']))
     out = {'op': 'dict', 'id': sid, 'keys': list(keys), 'mode': mode}
+    if draw(st.integers(0, 5)) == 0:
+        out['as_defaultdict'] = True
     if keys and draw(st.integers(0, 7)) == 0:
         out['none_at'] = draw(st.integers(0, len(keys) - 1))
     return out
@@ -178,7 +180,9 @@ def st_stage(draw, op, node, m, ctx, allowed, budget):
         return {'op': 'shard', 'k': k, 'i': draw(st.integers(0, k - 1)), 'via': draw(st.sampled_from(['shard', 'split', 'shard_neg'])),
                 'in': node}
     if op == 'batch':
-        return {'op': 'batch', 'n': draw(st.integers(1, 4)), 'drop_last': draw(st.booleans()), 'in': node}
+        out = {'op': 'batch', 'n': draw(st.integers(1, 4)), 'drop_last': draw(st.booleans()), 'in': node}
+        out['dl_as'] = draw(st.sampled_from(['bool', 'bool', 'np', 'int']))
+        return out
     if op == 'unbatch':
         return {'op': 'unbatch', 'in': node}
     if op == 'items':
